@@ -9,6 +9,7 @@
 from __future__ import annotations
 
 import errno
+import io
 from typing import List, Optional, Tuple
 
 
@@ -21,7 +22,13 @@ class SimFile:
     def writer(self, fail_at_call: Optional[int] = None, partial: int = 0) -> "WHandle":
         return WHandle(self, fail_at_call, partial)
 
-    def reader(self, pos: int = 0, fail_at_read: Optional[int] = None) -> "RHandle":
+    reader_kind = 0     # 0 plain object with read/tell/seek; 1 io.RawIOBase (unbuffered file, socket file); 2 BufferedReader
+
+    def reader(self, pos: int = 0, fail_at_read: Optional[int] = None):
+        if self.reader_kind == 1:
+            return RawRHandle(self, pos, fail_at_read)
+        if self.reader_kind == 2:
+            return BufRHandle(RawRHandle(self, pos, fail_at_read))
         return RHandle(self, pos, fail_at_read)
 
     def flush_all(self) -> None:
@@ -88,3 +95,56 @@ class RHandle:
         assert whence == 0
         self.pos = pos
         return pos
+
+
+class RawRHandle(io.RawIOBase):
+    """The same visible prefix behind the io.RawIOBase interface (an unbuffered file object).  A read is only
+    ever short at the frontier: raw streams MAY return less, but nothing here tests a caller's patience."""
+
+    def __init__(self, f: SimFile, pos: int, fail_at_read: Optional[int]):
+        super().__init__()
+        self.f = f
+        self.pos = pos
+        self.fail_at_read = fail_at_read
+        self.reads = 0
+
+    def readable(self) -> bool:
+        return True
+
+    def seekable(self) -> bool:
+        return True
+
+    def readinto(self, b) -> int:
+        k = self.reads
+        self.reads += 1
+        if self.fail_at_read is not None and k == self.fail_at_read:
+            raise OSError(errno.EIO, "Input/output error (injected)")
+        end = max(self.pos, min(self.pos + len(b), self.f.frontier))
+        out = bytes(self.f.data[self.pos:end])
+        b[:len(out)] = out
+        self.pos = end
+        return len(out)
+
+    def seek(self, pos: int, whence: int = 0) -> int:
+        if whence == 0:
+            self.pos = pos
+        elif whence == 1:
+            self.pos += pos
+        else:
+            self.pos = self.f.frontier + pos
+        return self.pos
+
+    def tell(self) -> int:
+        return self.pos
+
+
+class BufRHandle(io.BufferedReader):
+    """io.BufferedReader over the raw handle (what open(path, 'rb') gives): reads ahead, tell() accounts for it."""
+
+    def __init__(self, raw: RawRHandle):
+        super().__init__(raw, buffer_size=64)
+        self._raw_handle = raw
+
+    @property
+    def reads(self) -> int:
+        return self._raw_handle.reads
